@@ -57,7 +57,7 @@ def main():
             if rc != 0:
                 print("%s-%d: patch does not apply: %s" % (pid, k, o[-300:])); reset(); continue
             rc1, o1 = sh(cmd)
-            patched_fail = ("FAILED" in o1 or "panicked" in o1) and "error[E" not in o1 and "could not compile" not in o1
+            patched_fail = ("FAILED" in o1 or "panicked" in o1 or "overflowed its stack" in o1 or "signal: " in o1) and "error[E" not in o1 and "could not compile" not in o1
             os.remove(os.path.join(WT, dst))
             rc2, o2 = sh("cargo nextest run --workspace --no-fail-fast --tool-config-file pb:/w/lib/nextest.toml --profile pb --test-threads 12 --offline 2>&1 | tail -15", timeout=7200)
             msum = re.search(r"(\d+) tests run: (\d+) passed.*?(\d+) failed", o2)
